@@ -218,3 +218,6 @@ func (r *Recorder) ClearFaults() {
 func (e Ev) String() string {
 	return fmt.Sprintf("#%d %s.%s %s off=%d n=%d %s", e.Seq, e.Src, e.Call, e.Name, e.Off, e.N, e.Res)
 }
+
+// GID returns the current goroutine's id (harness-side thread identification).
+func GID() int64 { return gid() }
